@@ -415,11 +415,16 @@ def facOKB (fac : DecApi.Factory) : Bool :=
       !(e.num == fnFieldDescriptionDeveloperDataIndex || e.num == fnFieldDescriptionFieldDefinitionNumber ||
         e.num == fnFieldDescriptionFitBaseTypeId) || (btSize e.info.bt == 1 && !e.info.array && !e.info.isBool && e.info.bt != btSint8 && e.info.bt != btString))
 
+/-- field numbers, developer field numbers and developer data indexes are bytes -/
+def byteNums (m : Message) : Bool :=
+  m.fields.all (fun f => match f.base with | some b => decide (b.num < 256) | none => true) &&
+    m.devFields.all (fun d => decide (d.num < 256) && decide (d.devIdx < 256))
+
 /-- every value is a well-formed `proto.Value` -/
 def wfMsg (m : Message) : Bool := m.fields.all (fun f => wf f.value) && m.devFields.all (fun d => wf d.value)
 
 def inDomain (fac : DecApi.Factory) (kept : List Message) : Bool :=
   facOKB fac && kept.all (fun m => decide (m.num < 65536) && wfMsg m && plainKeys m &&
-    m.fields.all (fun f => f.base.isSome && agreeField fac m.num f))
+    m.fields.all (fun f => f.base.isSome && agreeField fac m.num f) && byteNums m)
 
 end Fit.E2E
